@@ -402,29 +402,36 @@ impl PersistBackend for FilePersist {
             return Ok(());
         }
 
-        // Handle WAL based on durability mode
-        match self.config.durability_mode {
-            DurabilityMode::Immediate => {
-                // Write to WAL with immediate sync (safest)
-                let mut wal = self.wal.lock();
-                wal.append_batch(shard, updates)?;
-            }
-            DurabilityMode::Batched => {
-                // Write to WAL without sync (faster, batched durability)
-                let mut wal = self.wal.lock();
-                wal.append_batch_buffered(shard, updates)?;
-            }
-            DurabilityMode::Async => {
-                // Skip WAL entirely for maximum speed (in-memory only until flush).
-                // Data WILL be lost on crash. Only use for ephemeral/reproducible data.
-            }
-        }
-
-        #[cfg(inputlayer_verif)]
-        crate::verif_hooks::point("persist.append.after_wal");
-        // Add to buffer
+        // The WAL append and the buffer insertion are one step with respect to
+        // flush(): flush() trims every WAL entry of the shard after writing the
+        // buffer to a batch, so an entry that is already in the WAL but not yet in
+        // the buffer would end up in neither (an acknowledged write lost by a crash).
+        // Lock order shards -> wal, as in flush() and compact().
         let should_flush = {
             let mut shards = self.shards.write();
+
+            // Handle WAL based on durability mode
+            match self.config.durability_mode {
+                DurabilityMode::Immediate => {
+                    // Write to WAL with immediate sync (safest)
+                    let mut wal = self.wal.lock();
+                    wal.append_batch(shard, updates)?;
+                }
+                DurabilityMode::Batched => {
+                    // Write to WAL without sync (faster, batched durability)
+                    let mut wal = self.wal.lock();
+                    wal.append_batch_buffered(shard, updates)?;
+                }
+                DurabilityMode::Async => {
+                    // Skip WAL entirely for maximum speed (in-memory only until flush).
+                    // Data WILL be lost on crash. Only use for ephemeral/reproducible data.
+                }
+            }
+
+            #[cfg(inputlayer_verif)]
+            crate::verif_hooks::point("persist.append.after_wal");
+
+            // Add to buffer
             let state = shards
                 .entry(shard.to_string())
                 .or_insert_with(|| ShardState {
